@@ -1,6 +1,8 @@
 package main
 
 import (
+	"github.com/matrix-org/gomatrixserverlib/spec"
+	"errors"
 	"encoding/base64"
 	"crypto/ed25519"
 	"fmt"
@@ -584,6 +586,36 @@ func runC07(c *mon.Ctx) {
 						}
 						c.Failf(sig, "v%s %s event: reference %s by rule %s, library: %v\nevent: %s\nstate: %v", w.ver, ac.kind, want, rule, got, ac.ev.JSON(), describeState(ac.state))
 					}
+					// fault injection: the same question put to a provider one of whose lookups fails (a database that is
+					// down at that moment). A verdict that rests on a lookup that was refused an answer cannot be "allowed".
+					if got == nil && r.Chance(0.15) {
+						needed := gmsl.StateNeededForAuth([]gmsl.PDU{ac.ev})
+						for _, m := range faultyProviderMethods {
+							// (only lookups of state the event needs: what a checker makes of a failed lookup it had no need
+							// to make is its own business)
+							if (m == "Create" && !needed.Create) || (m == "PowerLevels" && !needed.PowerLevels) || (m == "JoinRules" && !needed.JoinRules) ||
+								(m == "Member" && len(needed.Member) == 0) || (m == "ThirdPartyInvite" && len(needed.ThirdPartyInvite) == 0) {
+								continue
+							}
+							inner, err := gmsl.NewAuthEvents(ac.state)
+							if err != nil {
+								break
+							}
+							fp := &faultyProvider{AuthEvents: inner, fail: m}
+							var fgot error
+							if site, msg, pan := mon.Guard(func() { fgot = gmsl.Allowed(ac.ev, fp, userIDForSender) }); pan {
+								c.Failf("auth:panic:provider-fault:"+site, "Allowed panics when the provider's %s lookup fails: %s", m, msg)
+								continue
+							}
+							c.Count("evaluations_with_a_failing_provider_lookup")
+							if fp.hits > 0 {
+								c.Count("provider_faults_hit")
+								if fgot == nil {
+									c.Failf("auth:allows-although-a-provider-lookup-failed:"+m, "v%s %s event: Allowed returns nil although the auth-event provider answered its %s lookup with an error (%d times)\nevent: %s", w.ver, ac.kind, m, fp.hits, ac.ev.JSON())
+								}
+							}
+						}
+					}
 					if c.WantSample() && want == ref.Allow && ac.kind != "message" {
 						c.Sample(map[string]any{"version": ver, "kind": ac.kind, "decided_by": rule, "verdict": want.String(), "event": string(ac.ev.JSON()), "state": describeState(ac.state)})
 					}
@@ -663,4 +695,51 @@ func c07CreateWithRoomID(c *mon.Ctx) {
 			})
 		}
 	}
+}
+
+// faultyProvider is an auth-event provider over a real AuthEvents one lookup method of which answers with an error.
+type faultyProvider struct {
+	*gmsl.AuthEvents
+	fail string
+	hits int
+}
+
+var faultyProviderMethods = []string{"Create", "PowerLevels", "JoinRules", "Member", "ThirdPartyInvite"}
+
+func (f *faultyProvider) fault(m string) error {
+	if f.fail == m {
+		f.hits++
+		return errors.New("scripted fault: " + m)
+	}
+	return nil
+}
+func (f *faultyProvider) Create() (gmsl.PDU, error) {
+	if err := f.fault("Create"); err != nil {
+		return nil, err
+	}
+	return f.AuthEvents.Create()
+}
+func (f *faultyProvider) PowerLevels() (gmsl.PDU, error) {
+	if err := f.fault("PowerLevels"); err != nil {
+		return nil, err
+	}
+	return f.AuthEvents.PowerLevels()
+}
+func (f *faultyProvider) JoinRules() (gmsl.PDU, error) {
+	if err := f.fault("JoinRules"); err != nil {
+		return nil, err
+	}
+	return f.AuthEvents.JoinRules()
+}
+func (f *faultyProvider) Member(sk spec.SenderID) (gmsl.PDU, error) {
+	if err := f.fault("Member"); err != nil {
+		return nil, err
+	}
+	return f.AuthEvents.Member(sk)
+}
+func (f *faultyProvider) ThirdPartyInvite(sk string) (gmsl.PDU, error) {
+	if err := f.fault("ThirdPartyInvite"); err != nil {
+		return nil, err
+	}
+	return f.AuthEvents.ThirdPartyInvite(sk)
 }
